@@ -934,7 +934,71 @@ def _judge_ctor(c, aug, p, r, bad):
 
 
 # ----------------------------------------------------------------------
+# ----------------------------------------------------------------------
+# part `limit`: no step exceeds the stability requirement, the requirement obtained from the real update operators
+def limit_cases(tier):
+    """single assemblies / seven-assembly cores with a non-adiabatic outer wall (constant-property coolant): the
+    largest step for which the explicit coolant updates of every pin bundle keep a non-negative weight on the cell
+    itself is measured on the real operators (self weight is 1 - dz * s_i, so one evaluation gives s_i)"""
+    from . import c01
+    fam = list(c01.FAMS_WIRE[0])
+    out = []
+    designs = ('d2', 'd3') if tier == 'quick' else ('d2', 'd3', 'd4', 'b3')
+    for d in designs:
+        for du in (('1', '2f') if tier == 'quick' else ('1', '2f', '2s', '3')):
+            for re in ('vlow', 'lam', 'turb'):
+                for wall in (('flow', 'no_flow') if tier == 'quick' else ('flow', 'no_flow', 'duct_average')):
+                    for ca in (False, True):
+                        if ca and re == 'turb':
+                            continue
+                        out.append({'part': 'limit', 'design': d, 'ducts': du, 're': re, 'wall': wall,
+                                    'fam': list(c01.FAMS_BARE[0]) if d == 'b3' else fam, 'structure': 'bundle',
+                                    'core': 1, 'conv_approx': ca, 'L': 0.012})
+    return out
+
+
+def run_limit(c):
+    from . import c04
+    r = new_result()
+    V = r['violations']
+    cc = {k: v for k, v in c.items() if k != 'part'}
+    with S.Built(c04.build(cc, 'zero')) as b:
+        try:
+            rx = b.reactor()
+        except SystemExit as e:
+            r['outcome'] = 'rejected-at-setup'
+            r['info'] = {'site': site_of(e)}
+            return r
+        T0 = float(rx.inlet_temp)
+        dz_max = float(np.max(rx.dz))
+        true_req = None
+        for ai, a in enumerate(rx.assemblies):
+            for reg in a.region:
+                if not reg.is_rodded:
+                    continue
+                y0, A, dims = c04.probe_operator(reg, dz_max, T0, None)
+                n = A.shape[0]
+                s = (1.0 - np.diag(A[:, :n])) / dz_max
+                req = 1.0 / float(np.max(s))
+                true_req = req if true_req is None else min(true_req, req)
+                r['states'] += 1
+                r['transitions'] += A.shape[1] + 1
+        r['traces'] = 1
+        r['nontrivial'] = true_req is not None
+        r['info'] = {'dz_max': dz_max, 'operator_requirement': true_req, 'reported': float(min(rx.min_dz['dz']))}
+        if true_req is not None and dz_max > true_req * (1.0 + 1e-9):
+            V.append(violation('step-exceeds-operator-requirement', c,
+                               'longest axial step %.6g m exceeds the stability requirement of the pin-bundle coolant '
+                               'update measured on the real operators (%.6g m; DASSH reports %.6g m)'
+                               % (dz_max, true_req, float(min(rx.min_dz['dz']))), dz_max, true_req, 1e-9 * true_req,
+                               site='region_rodded.py:calculate_min_dz'))
+    r['outcome'] = 'ok' if not V else 'violation'
+    return r
+
+
 def run_case(c):
+    if c.get('part') == 'limit':
+        return run_limit(c)
     if c.get('part') == 'ctor':
         return run_ctor(c)
     if c.get('part') == 'walk':
@@ -953,7 +1017,9 @@ def main(run):
         '~23 000 planes). An input is non-trivial when the real set-up methods return a walker state; distinct = '
         'distinct canonical state (merged boundary tuple, chosen step); every distinct state is walked once by the '
         'real _setup_zpts. Part B: listed full inputs (units m/cm/ft x boundary pattern x request x flow / gap '
-        'model); distinct by (Reactor.axial_bnds, req_dz).')
+        'model); distinct by (Reactor.axial_bnds, req_dz). Part C: design x ducts x Reynolds level x gap model x '
+        'low-flow approximation with a non-adiabatic outer wall: the longest step of the real mesh against the '
+        'stability requirement measured on the real coolant update operators (not the number DASSH reports).')
     run.assumptions = [
         'the stub carries exactly the attributes the three methods read; bound to the real constructor by part B (bitwise equal z, dz, axial_bnds, req_dz)',
         'merging by (axial_bnds, req_dz) is sound because _setup_zpts/_check_dz read only axial_bnds, core_length = axial_bnds[-1] and req_dz',
@@ -1058,9 +1124,14 @@ def main(run):
         v['part'] = 'ctor'
         run.violations.append(v)
 
+    # Part C ------------------------------------------------------------
+    run.explore('limit', limit_cases(run.tier), run_limit, budget_s=300, chunksize=1)
+
 
 def replay(body):
     c = body['scenario']
+    if c.get('part') == 'limit':
+        c = {k: v for k, v in c.items() if k not in ('probe', 'probe_dz', 'level')}
     if c.get('part') == 'ctor':
         c = {k: v for k, v in c.items()
              if k not in ('req_floor_zero', 'user_zero', 'min_requirement')}
